@@ -44,6 +44,8 @@ pub struct Profile {
     /// construct that carries a non-empty block-alternate: whether it survives is not stated, but it
     /// must not surface anywhere except next to the replacement (oracle: `replaced_opener_probe`)
     pub opener_special: bool,
+    /// local functions without results sometimes have a body that is only the final `end`
+    pub empty_bodies: bool,
     /// also request after-code / replacements on a function's final `end` (where only before-code is emitted)
     pub final_end_after: bool,
     /// also generate `clear_instr_at` calls that take earlier injections back
@@ -85,6 +87,7 @@ impl Profile {
             misapplied: false,
             region_interior: false,
             opener_special: false,
+            empty_bodies: false,
             final_end_after: false,
             clears: false,
             add_mem_anyway: false,
@@ -995,6 +998,10 @@ pub fn gen_base(rng: &mut Rng, p: &Profile, st: &mut GenState) -> ModuleSpec {
         }
         let exp: Vec<VT> = locals.iter().flat_map(|(n, t)| std::iter::repeat(*t).take(*n as usize)).collect();
         let magic = st.func_magic();
+        if p.empty_bodies && results.is_empty() && rng.chance(1, 5) {
+            m.funcs.push(FuncSpec { ty: *t, locals, body: vec![Ins::End] });
+            continue;
+        }
         let size = rng.range(1, 8);
         let mut cg = CodeGen {
             rng,
